@@ -235,7 +235,7 @@ def execute(trace):
         r.hit('probe.debug_logging')
         return r
     finally:
-        lg.setLevel(logging.ERROR)
+        lg.setLevel(logging.NOTSET)
 
 
 def _execute(trace):
